@@ -1,16 +1,14 @@
 import Verif.Model.Carrier
 import Verif.Lemmas.StdioIn
-import Verif.Props.C02
-import Verif.Props.C17
+import Verif.Lemmas.Rpc
+import Verif.Lemmas.Json
 
 /-! # The stdio line of the real codec
 
-Code points of a text, `strip` on a clean wire text (with optional surrounding whitespace), and the
+Code points of a text, `strip` on a clean wire text (with optional surrounding blanks), and the
 reader's real parser (`Json.dec` + `Rpc.parseMsg`, `Model/Carrier.realStdio`) on the line
-`Json.enc st (Rpc.emit m)`; used by `Props/C05` and `Props/C06`.
-
-`Lemmas/Carrier.lean` (C15) holds its own copies of the first few lemmas; it cannot be imported here
-because it imports `Props/C05` itself.  It could import this file instead.
+`Json.enc st (Rpc.emit m)`.  Shared by `Props/C05`, `Props/C06` and `Lemmas/Carrier.lean` (C15).
+Imports lemma files only (no `Props/*`).
 -/
 set_option linter.unusedSimpArgs false
 set_option linter.unusedVariables false
@@ -112,7 +110,7 @@ theorem blank_valid (l : List Nat) (h : Blank l) : ValidText l ∧ LF ∉ l := b
 end stdio
 
 section real
-open Verif.Model.Json Verif.Model.Rpc Verif.Props.C02 Verif.Props.C17
+open Verif.Model.Json Verif.Model.Rpc
 
 theorem emit_obj (m : Msg) : ∃ o, emit m = .obj o := by
   cases m with
@@ -126,7 +124,7 @@ theorem getLast_wrap (a b : Char) (l : List Char) : (a :: (l ++ [b])).getLast? =
 
 theorem cleanWire_emit (st : Style) (m : Msg) (hw : wfMsg m = true) : CleanWire (enc st (emit m)) := by
   obtain ⟨o, ho⟩ := emit_obj m
-  have hb := c02_wire_single_line st m hw
+  have hb := enc_noBreak st (emit m) (wf_emit m hw)
   refine ⟨hb.1, hb.2, ?_, ?_⟩
   · rw [ho]; simp [enc]
   · rw [ho]; simp only [enc]; exact getLast_wrap _ _ _
@@ -137,19 +135,11 @@ theorem chars_codes (t : List Char) : chars (codes t) = t := by
 theorem real_stdio_decodes (st : Style) (m : Msg) (hb : Built m) (hw : wfMsg m = true) :
     StdioDecodes realStdio (rpcWire st) m := by
   refine ⟨cleanWire_emit st m hw, ?_⟩
-  have hrt := c02_wire_roundtrip st m hb hw
+  have hp := parse_emit_of_ok m (built_ok hb)
   obtain ⟨o, ho⟩ := emit_obj m
-  simp only [rpcWire, realStdio, chars_codes]
-  cases hd : dec (enc st (emit m)) with
-  | none => simp [hd] at hrt
-  | some j =>
-    simp only [hd, Option.map_some, Option.some.injEq] at hrt
-    have hj : j = emit m := by
-      have := c17_dec_enc_any_style st (emit m) (wf_emit m hw)
-      rw [hd] at this; exact Option.some.inj this
-    subst hj
-    rw [ho] at hrt ⊢
-    simp only [hrt]
+  simp only [rpcWire, realStdio, chars_codes, dec_enc st (emit m) (wf_emit m hw)]
+  rw [ho] at hp ⊢
+  simp only [hp]
 
 end real
 
